@@ -26,7 +26,8 @@ type memConn struct {
 	readMax   int
 	failAt    int // cumulative byte count at which Write fails (<0 never)
 	shortOnly bool
-	zeroThenErr bool
+	transient bool // only the one Write call that crosses failAt fails; later calls work again
+	tripped   bool
 	written   int
 	writes    int
 }
@@ -37,7 +38,8 @@ func (m *memConn) Write(p []byte) (int, error) {
 	m.writes++
 	n := len(p)
 	var err error
-	if m.failAt >= 0 && m.written+n > m.failAt {
+	if m.failAt >= 0 && m.written+n > m.failAt && !(m.transient && m.tripped) {
+		m.tripped = true
 		n = m.failAt - m.written
 		if n < 0 {
 			n = 0
@@ -174,13 +176,15 @@ func TestVerifC08Conn(t *testing.T) {
 		}
 	}
 	for _, k := range positions {
-		for _, short := range []bool{false, true} {
+		for _, mode := range []int{0, 1, 2, 3} {
+			short := mode&1 != 0
+			transient := mode&2 != 0
 			for _, pat := range [][]int{{100, 100}, {40000, 10}, {32768, 32768, 5}, {70000, 70000}, {1, 1, 1}, {98304 + 10, 3}} {
 				if !mine() {
 					continue
 				}
 				res.Add("evaluations", 1)
-				wire := &memConn{failAt: k, shortOnly: short}
+				wire := &memConn{failAt: k, shortOnly: short, transient: transient}
 				w := &Conn{conn: wire, enc: mkCipher(), dec: mkCipher()}
 				var all []byte
 				var firstErr error
@@ -193,7 +197,7 @@ func TestVerifC08Conn(t *testing.T) {
 					if firstErr != nil {
 						// every later write must fail with the same error and send nothing
 						if err == nil || kk != 0 || wire.written != before {
-							res.Violate("C08/conn/error-not-latched", fmt.Sprintf("after a failed write, a later Write returned (%d, %v) and put %d more bytes on the wire (fault at %d, short=%v, writes %v)", kk, err, wire.written-before, k, short, pat),
+							res.Violate("C08/conn/error-not-latched", fmt.Sprintf("after a failed write, a later Write returned (%d, %v) and put %d more bytes on the wire (fault at %d, short=%v, transient=%v, writes %v)", kk, err, wire.written-before, k, short, transient, pat),
 								map[string]any{"pattern": pat, "fault": k, "short": short})
 						}
 						continue
@@ -224,7 +228,7 @@ func TestVerifC08Conn(t *testing.T) {
 				if k < total && firstErr == nil {
 					res.Violate("C08/conn/fault-swallowed", fmt.Sprintf("the underlying write failed at byte %d but no Write reported an error", k), map[string]any{"pattern": pat, "fault": k, "short": short})
 				}
-				nontriv[fmt.Sprint("fault", k, short, pat)] = true
+				nontriv[fmt.Sprint("fault", k, mode, pat)] = true
 			}
 		}
 	}
